@@ -213,7 +213,8 @@ class Row:
         return self.st.witness()
 
     def key(self):
-        return (self.out, self.ev, tuple(sorted((str(a), str(b)) for a, b in self.st.ts.items() if isinstance(a, tuple) and a and a[0] in ("cmp", "isinst"))),
+        # every typestate entry takes part (a rule may keep its own facts there); only loop bookkeeping is left out
+        return (self.out, tuple(sorted((str(a), str(b)) for a, b in self.st.ts.items() if not (isinstance(a, tuple) and a and a[0] == "iterated"))),
                 tuple(sorted(self.st.facts.items())))
 
 
